@@ -371,14 +371,20 @@ class Precondition:
         for equality_condition in self.equality_preconditions:
             param_1, param_2 = equality_condition
             new_equality_conditions.add(
-                (old_to_new_param_names[param_1], old_to_new_param_names[param_2])
+                (
+                    old_to_new_param_names.get(param_1, param_1),
+                    old_to_new_param_names.get(param_2, param_2),
+                )
             )
 
         self.equality_preconditions = new_equality_conditions
         for inequality_condition in self.inequality_preconditions:
             param_1, param_2 = inequality_condition
             new_inequality_conditions.add(
-                (old_to_new_param_names[param_1], old_to_new_param_names[param_2])
+                (
+                    old_to_new_param_names.get(param_1, param_1),
+                    old_to_new_param_names.get(param_2, param_2),
+                )
             )
 
         self.inequality_preconditions = new_inequality_conditions
